@@ -6,6 +6,7 @@ import (
 	"fmt"
 	stdhttp "net/http"
 	"runtime/debug"
+	"sort"
 	"strings"
 	"sync"
 	"testing"
@@ -58,10 +59,12 @@ const (
 	opKitexHeaderReuse
 	opHTTPSameRequestTwice
 	opDOMTemplateCopy
+	opGetMany
+	opGetManyBad
 	nOps
 )
 
-var opNames = []string{"t2j", "j2t", "t2j-http", "t2j-truncated", "j2t-malformed", "dom-load-marshal", "cut", "get-by-path", "lookup", "p2j-j2p", "j2p-malformed", "p2j-truncated", "j2t-http", "proto-generic", "http-empty-body", "http-fallback-rejected", "http-fallback-valid", "t2j-missing-required", "t2j-kitex-headers-then-buffer-reuse", "http-same-request-twice", "dom-template-copy"}
+var opNames = []string{"t2j", "j2t", "t2j-http", "t2j-truncated", "j2t-malformed", "dom-load-marshal", "cut", "get-by-path", "lookup", "p2j-j2p", "j2p-malformed", "p2j-truncated", "j2t-http", "proto-generic", "http-empty-body", "http-fallback-rejected", "http-fallback-valid", "t2j-missing-required", "t2j-kitex-headers-then-buffer-reuse", "http-same-request-twice", "dom-template-copy", "get-many-shared-options", "get-many-ill-formed-path"}
 
 type Op struct {
 	Kind int `json:"k"`
@@ -73,8 +76,8 @@ type Case struct {
 	V       *tm.Value     `json:"v"`
 	Doc     []byte        `json:"doc"` // JSON document denoting V (members in V's order)
 	Schema  pmodel.Schema `json:"schema"`
-	Msg     []byte        `json:"msg"`     // reference-encoded proto message
-	Threads [][]Op        `json:"threads"` // one operation list per goroutine
+	Msg     []byte        `json:"msg"`             // reference-encoded proto message
+	Threads [][]Op        `json:"threads"`         // one operation list per goroutine
 	I2S     bool          `json:"int64_to_string"` // the shared p2j converter is created with Int642String
 }
 
@@ -202,6 +205,7 @@ type env struct {
 	md       protoreflect.MessageDescriptor
 	ref      proto.Message
 	fieldRaw map[int16][]byte
+	gopts    *generic.Options // one options object for all bulk lookups (ClearDirtyValues set); nothing may write to it
 	hfix     *httpFixture
 	template generic.PathNode // loaded once, recursively; shared read-only: every user works on its own CopyTo copy
 }
@@ -322,6 +326,46 @@ func (e *env) run(op Op, keep *[]held) (msg string) {
 		}
 		if !bytes.Equal(in, e.enc) {
 			return "generic reads modified their input"
+		}
+	case opGetMany:
+		// bulk lookup of every field plus an absent one into slots that hold something else, with the shared options
+		val := generic.NewValue(e.comp.Root, append(make([]byte, 0, len(e.enc)+16), e.enc...))
+		var pn []generic.PathNode
+		var ids []int16
+		for id := range e.fieldRaw {
+			ids = append(ids, id)
+		}
+		sort.Slice(ids, func(i, j int) bool { return (int(ids[i])*7919+op.Arg)%10007 < (int(ids[j])*7919+op.Arg)%10007 })
+		absent := int16(1)
+		for {
+			if _, ok := e.fieldRaw[absent]; !ok {
+				break
+			}
+			absent++
+		}
+		ids = append(ids[:len(ids):len(ids)], absent)
+		for _, id := range ids {
+			pn = append(pn, generic.PathNode{Path: generic.NewPathFieldId(thrift.FieldID(id)), Node: generic.NewNodeString("dirty-slot")})
+		}
+		if err := val.Node.GetMany(pn, e.gopts); err != nil {
+			return "GetMany fails: " + err.Error()
+		}
+		for i, id := range ids {
+			if id == absent {
+				if !pn[i].Node.IsEmpty() {
+					return fmt.Sprintf("GetMany with ClearDirtyValues: the slot of absent field %d still holds a node of type %v", id, pn[i].Node.Type())
+				}
+				continue
+			}
+			if pn[i].Node.IsError() || !bytes.Equal(pn[i].Node.Raw(), e.fieldRaw[id]) {
+				return fmt.Sprintf("GetMany: field %d delivered as %x, it holds %x", id, head(pn[i].Node.Raw()), head(e.fieldRaw[id]))
+			}
+		}
+	case opGetManyBad:
+		val := generic.NewValue(e.comp.Root, append(make([]byte, 0, len(e.enc)+16), e.enc...))
+		pn := []generic.PathNode{{Path: generic.NewPathFieldName("no_such_field")}, {Path: generic.NewPathFieldId(1)}}
+		if err := val.Node.GetMany(pn, e.gopts); err == nil {
+			return "untyped GetMany accepts a field-name path"
 		}
 	case opLookup:
 		sd := cs.U.Struct(cs.U.Root.Ref)
@@ -582,7 +626,7 @@ func check(c *pbt.Ctx, cs Case) {
 		c.Failf("harness-schema", "schema rejected: %v %v", err, pcomp.SvcErr)
 	}
 	e := &env{cs: cs, comp: comp, cut: cut, enc: tm.Encode(cs.V), tj: t2j.NewBinaryConv(conv.Options{}), jt: j2t.NewBinaryConv(conv.Options{}),
-		pj: p2j.NewBinaryConv(conv.Options{Int642String: cs.I2S}), jp: j2p.NewBinaryConv(conv.Options{}), fieldRaw: map[int16][]byte{}}
+		pj: p2j.NewBinaryConv(conv.Options{Int642String: cs.I2S}), jp: j2p.NewBinaryConv(conv.Options{}), fieldRaw: map[int16][]byte{}, gopts: &generic.Options{ClearDirtyValues: true}}
 	e.template = generic.PathNode{Node: generic.NewNode(thrift.STRUCT, append(make([]byte, 0, len(e.enc)+16), e.enc...))}
 	if err := e.template.Load(true, &generic.Options{}); err != nil {
 		c.Failf("harness-template", "Load of the template fails: %v", err)
@@ -656,6 +700,10 @@ func check(c *pbt.Ctx, cs Case) {
 			}
 		}
 	}
+	if *e.gopts != (generic.Options{ClearDirtyValues: true}) {
+		c.Failf("options-changed", "the options object handed to the bulk lookups was modified: %+v", *e.gopts)
+		return
+	}
 	var after strings.Builder
 	dumpDesc(comp.Root, map[*thrift.StructDescriptor]bool{}, &after)
 	if before.String() != after.String() {
@@ -677,7 +725,7 @@ func check(c *pbt.Ctx, cs Case) {
 
 var Prop = pbt.Register(pbt.Prop[Case]{
 	Name: "TestSharedUse",
-	Rule: "generated Thrift descriptor + conforming message + JSON document, generated proto3 schema + message, and a drawn history: 1..8 goroutines, each with a drawn list of operations (t2j, j2t, t2j HTTPConv.Do, j2t HTTPConv.Do, proto DOM Load+Marshal, t2j on a truncated message, j2t on a truncated document, DOM Load+Marshal, MarshalTo, GetByPath, descriptor lookups, p2j+j2p, j2p on malformed documents incl. ones that fail while an unknown root member is skipped, p2j on a truncated message; on a fixed annotated service: an empty-body GET whose required field comes from the query, a request rejected because a required field has no source under ReadHttpValueFallback+Traceback, a complete request under the same options, t2j of a response whose outer struct lacks a required field while holding a nested struct, one request object converted twice (an api.body string member), a shared recursively loaded DOM template that is copied with CopyTo, the copy being reset, t2j with Kitex http encoding delivering header values out of a buffer the caller then overwrites) sharing descriptors, converter objects and read-only inputs, in a -race binary; every successful operation is checked against the reference oracles (reference encoder, strict JSON reader, protobuf-go), failing inputs must fail, every result handed out is compared with its copy after all goroutines finished, inputs and descriptor dump must be unchanged; a data race reported by the race detector is a violation; non-trivial = >= 2 goroutines and >= 6 operations",
+	Rule: "generated Thrift descriptor + conforming message + JSON document, generated proto3 schema + message, and a drawn history: 1..8 goroutines, each with a drawn list of operations (t2j, j2t, t2j HTTPConv.Do, j2t HTTPConv.Do, proto DOM Load+Marshal, t2j on a truncated message, j2t on a truncated document, DOM Load+Marshal, MarshalTo, GetByPath, descriptor lookups, p2j+j2p, j2p on malformed documents incl. ones that fail while an unknown root member is skipped, p2j on a truncated message; on a fixed annotated service: an empty-body GET whose required field comes from the query, a request rejected because a required field has no source under ReadHttpValueFallback+Traceback, a complete request under the same options, t2j of a response whose outer struct lacks a required field while holding a nested struct, one request object converted twice (an api.body string member), a shared recursively loaded DOM template that is copied with CopyTo, the copy being reset, t2j with Kitex http encoding delivering header values out of a buffer the caller then overwrites; bulk lookups (GetMany) of every field plus an absent one through one shared options object with ClearDirtyValues, also after a bulk lookup that fails on an ill-formed path; the shared p2j converter carries Int642String in half of the cases and its documents must equal the one the conversion gives alone) sharing descriptors, converter objects and read-only inputs, in a -race binary; every successful operation is checked against the reference oracles (reference encoder, strict JSON reader, protobuf-go), failing inputs must fail, every result handed out is compared with its copy after all goroutines finished, inputs, the shared options object and the descriptor dump must be unchanged; a data race reported by the race detector is a violation; non-trivial = >= 2 goroutines and >= 6 operations",
 	Gen: func(t *rapid.T) Case {
 		cfg := tm.GenCfg{MaxDepth: 2, KeyKinds: tjson.SupportedKeys, Reqs: true, Aliases: true, ValidUTF8: true, FiniteDoubles: true, RootStruct: true, WireOrder: true, MaxWidth: 4}
 		u := tm.GenUniverse(t, cfg)
